@@ -178,6 +178,15 @@ func TestVerifRobust(t *testing.T) {
 				fmt.Println("ROBUST-HIT " + p)
 				return
 			}
+			// the same decoder used again after the failure
+			if p := vrCall(o.name+" decoder after the failed Decode("+fmt.Sprintf("%q", s)+"): second Decode", func() { _, both = dec(o, full) }); p != "" {
+				fmt.Println("ROBUST-HIT " + p)
+				return
+			}
+			if both != "" {
+				fmt.Println("ROBUST-HIT after a failed decode: " + both)
+				return
+			}
 			// leftover with an invalid metric of its own level
 			invalid := false
 			v := reflect.ValueOf(o.raw).Elem()
@@ -307,6 +316,15 @@ func TestVerifRobust(t *testing.T) {
 			}
 			if p := vrObservers(o.name+" left behind by the failed Decode("+fmt.Sprintf("%q", s)+")", o.q, o.extra); p != "" {
 				fmt.Println("ROBUST-HIT " + p)
+				return
+			}
+			// the same decoder used again after the failure
+			if p := vrCall(o.name+" decoder after the failed Decode("+fmt.Sprintf("%q", s)+"): second Decode", func() { _, both = dec(o, full) }); p != "" {
+				fmt.Println("ROBUST-HIT " + p)
+				return
+			}
+			if both != "" {
+				fmt.Println("ROBUST-HIT after a failed decode: " + both)
 				return
 			}
 		}
